@@ -532,8 +532,17 @@ func run(c Case) (v vkit.Verdict) {
 			return v
 		}
 	}
-	if !validOperand(pa, margin) || !validOperand(pb, margin) {
+	// (each operand is judged on its own size: a speck next to a large operand is a valid polygon like any other)
+	ma, mb := 1e-7*math.Max(ax1-ax0, ay1-ay0), 1e-7*math.Max(bx1-bx0, by1-by0)
+	if !(ma > 0) || ma > margin {
+		ma = margin
+	}
+	if !(mb > 0) || mb > margin {
+		mb = margin
+	}
+	if !validOperand(pa, ma) || !validOperand(pb, mb) {
 		v.Class("invalid_operand_skipped")
+		v.Class("invalid_operand_skipped_config_" + c.Config)
 		return v
 	}
 	// configuration class, measured
